@@ -379,7 +379,7 @@ instance (s : SchemaD) (rv : Bool) : Decidable (ValidSchema s rv) := decidable_o
 def CacheInv (st : CacheState) : Prop := st.isValid = true → ValidSchema st.schema true
 
 def isResolverOp : Op → Bool
-  | .replaceTypes _ => false
+  | .replaceTypes _ _ _ => false
   | _ => true
 
 private theorem registerDefault_inv (st : CacheState) (tn : String) (r : ResolverD) (allow : Bool)
@@ -447,7 +447,7 @@ private theorem step_inv_resolver (st : CacheState) (op : Op) (hop : isResolverO
         · cases fieldMap t fn with
           | none => exact h
           | some f => intro hv; simp at hv
-  | replaceTypes es => simp [isResolverOp] at hop
+  | replaceTypes es ds hl => simp [isResolverOp] at hop
 
 /-- **Cache soundness (the statement: the verdict is recomputed after resolvers are reassigned).**
     In every state reachable by `validate()`, `register_resolver`, `register_default_resolver`,
@@ -478,106 +478,419 @@ theorem validate_ok_means_valid (st : CacheState) (h : CacheInv st) (ops : List 
 theorem cacheInv_init (s : SchemaD) : CacheInv { schema := s } := by
   intro h; simp at h
 
-/-- replacing ONE type (`{name: new}`; `same` = the very object already registered, in which case the
-    description is unchanged) keeps the invariant -/
-def singleReplace : Op → Bool
-  | .replaceTypes [_] => true
-  | .replaceTypes _ => false
-  | _ => true
+/-! #### `_replace_types_and_directives` -/
 
-/-- the flag `same` of a replacement entry is honest: the registered type of that name is `new` -/
-def HonestReplace (st : CacheState) : Op → Prop
-  | .replaceTypes es => ∀ e ∈ es, e.2.2 = true → ∀ t ∈ st.schema.types, (t.name == e.1) = true → t = e.2.1
+/-- the T3 fix is in the tree: `busted_cache = busted_cache or …` -/
+theorem replace_accumulates : replaceAccumulates = true := by decide
+/-- fix C13-T3b is in the tree: refusals happen before the first mutation -/
+theorem replace_atomic : replaceAtomic = true := by decide
+/-- fix C13-T3b is in the tree: replaced directives bust the caches -/
+theorem replace_directives_bust : replaceDirectivesBust = true := by decide
+
+/-- well-formed request (a Python dict keyed by the name of the new object) with honest identity flags:
+    `same = true` means the new object IS what is registered under that name. -/
+def HonestTypeEntries (types : List TypeD) (es : List (String × Option TypeD × Bool)) : Prop :=
+  (es.map (·.1)).Nodup ∧
+  ∀ e ∈ es, (∀ new, e.2.1 = some new → new.name = e.1) ∧
+    (e.2.2 = true → ∀ t ∈ types, (t.name == e.1) = true → e.2.1 = some t)
+
+def HonestDirEntries (dirs : List DirectiveD) (es : List (String × Option DirectiveD × Bool)) : Prop :=
+  (es.map (·.1)).Nodup ∧
+  ∀ e ∈ es, (∀ new, e.2.1 = some new → new.name = e.1) ∧
+    (e.2.2 = true →
+      match e.2.1 with
+      | none => ∀ d ∈ dirs, (d.name == e.1) = false
+      | some new => dirs.any (·.name == e.1) = true ∧ ∀ d ∈ dirs, (d.name == e.1) = true → d = new)
+
+def HonestOp (st : CacheState) : Op → Prop
+  | .replaceTypes es ds _ => HonestTypeEntries st.schema.types es ∧ HonestDirEntries st.schema.directives ds
   | _ => True
 
-private theorem map_replace_id (types : List TypeD) (n : String) (new : TypeD)
-    (h : ∀ t ∈ types, (t.name == n) = true → t = new) :
-    types.map (fun t => if t.name == n then new else t) = types := by
-  induction types with
+private theorem map_replace_id {α} (name : α → String) (xs : List α) (n : String) (new : α)
+    (h : ∀ t ∈ xs, (name t == n) = true → t = new) :
+    xs.map (fun t => if name t == n then new else t) = xs := by
+  induction xs with
   | nil => rfl
   | cons t ts ih =>
     simp only [List.map_cons]
     rw [ih (fun u hu => h u (List.mem_cons_of_mem _ hu))]
-    by_cases hn : (t.name == n) = true
+    by_cases hn : (name t == n) = true
     · rw [if_pos hn, h t (List.mem_cons_self ..) hn]
     · rw [if_neg hn]
 
-private theorem applyReplace_single (types : List TypeD) (n : String) (new : TypeD) (same : Bool) :
-    ((applyReplace types false [(n, new, same)]).1 = types ∧
-      ((applyReplace types false [(n, new, same)]).2.2 = true ∨ (applyReplace types false [(n, new, same)]).2.1 = false)) ∨
-    ((applyReplace types false [(n, new, same)]).2.2 = false ∧ (applyReplace types false [(n, new, same)]).2.1 = !same ∧
-      (applyReplace types false [(n, new, same)]).1 = types.map (fun t => if t.name == n then new else t)) := by
-  simp only [applyReplace]
-  cases types.find? (·.name == n) with
-  | none => simp
-  | some orig =>
-    simp only []
-    split
-    · simp
-    · split <;> simp
+private theorem find_filter_ne {α} (name : α → String) (xs : List α) (n m : String) (hne : m ≠ n) :
+    (xs.filter fun t => !(name t == n)).find? (fun t => name t == m) = xs.find? (fun t => name t == m) := by
+  induction xs with
+  | nil => rfl
+  | cons t ts ih =>
+    by_cases hn : (name t == n) = true
+    · have htm : (name t == m) = false := by
+        have : name t = n := by simpa using hn
+        simp [this, Ne.symm hne]
+      simp [List.filter_cons, hn, List.find?_cons, htm, ih]
+    · have hn' : (name t == n) = false := by simpa using hn
+      simp [List.filter_cons, hn', List.find?_cons, ih]
 
-/-- **Cache soundness incl. `_replace_types_and_directives` — PARTIAL**: for histories whose replacement
-    maps have exactly one entry. The full statement (`CacheSoundWithReplace`, arbitrary maps) is false on
-    today's code: `busted_cache` is overwritten by every entry (ledger T3), see `cache_replace_full_fails_today`. -/
-theorem cache_sound_replace_partial (st : CacheState) (op : Op) (h1 : singleReplace op = true)
-    (hh : HonestReplace st op) (h : CacheInv st) : CacheInv (step st op).1 := by
+private theorem find_map_ne {α} (name : α → String) (xs : List α) (n m : String) (new : α)
+    (hnew : name new = n) (hne : m ≠ n) :
+    (xs.map fun t => if name t == n then new else t).find? (fun t => name t == m)
+      = xs.find? (fun t => name t == m) := by
+  induction xs with
+  | nil => rfl
+  | cons t ts ih =>
+    by_cases hn : (name t == n) = true
+    · have htn : name t = n := by simpa using hn
+      have h1 : (name t == m) = false := by simp [htn, Ne.symm hne]
+      have h2 : (name new == m) = false := by simp [hnew, Ne.symm hne]
+      simp only [List.map_cons, List.find?_cons, hn, if_true, h1, h2]
+      exact ih
+    · have hn' : (name t == n) = false := by simpa using hn
+      simp only [List.map_cons, List.find?_cons, hn', Bool.false_eq_true, if_false, ih]
+
+private theorem honestTypes_tail {types types' : List TypeD} {e : String × Option TypeD × Bool}
+    {es : List (String × Option TypeD × Bool)} (h : HonestTypeEntries types (e :: es))
+    (hsub : ∀ t ∈ types', ∀ e' ∈ es, (t.name == e'.1) = true → t ∈ types) :
+    HonestTypeEntries types' es := by
+  obtain ⟨hnd, hall⟩ := h
+  simp only [List.map_cons, List.nodup_cons] at hnd
+  refine ⟨hnd.2, fun e' he' => ⟨(hall e' (List.mem_cons_of_mem _ he')).1, fun hs t ht hn => ?_⟩⟩
+  exact (hall e' (List.mem_cons_of_mem _ he')).2 hs t (hsub t ht e' he' hn) hn
+
+private theorem precheckTypes_congr (types types' : List TypeD) (es : List (String × Option TypeD × Bool))
+    (h : ∀ e ∈ es, types'.find? (·.name == e.1) = types.find? (·.name == e.1)) :
+    precheckTypes types' es = precheckTypes types es := by
+  unfold precheckTypes
+  induction es with
+  | nil => rfl
+  | cons e es ih =>
+    simp only [List.any_cons]
+    rw [h e (List.mem_cons_self ..), ih (fun e' he' => h e' (List.mem_cons_of_mem _ he'))]
+
+/-- with the pre-check passed and accumulation, the type loop never raises, and a final
+    `busted_cache = False` means nothing was replaced -/
+private theorem applyReplace_spec : ∀ (es : List (String × Option TypeD × Bool)) (types : List TypeD) (b : Bool),
+    HonestTypeEntries types es → precheckTypes types es = false →
+    (applyReplace true types b es).2.2 = false ∧
+      ((applyReplace true types b es).2.1 = false → b = false ∧ (applyReplace true types b es).1 = types) := by
+  intro es
+  induction es with
+  | nil => intro types b _ _; simp [applyReplace]
+  | cons e es ih =>
+    intro types b hh hp
+    obtain ⟨n, new?, same⟩ := e
+    have hp' : precheckTypes types es = false := by
+      unfold precheckTypes at hp ⊢; simp only [List.any_cons, Bool.or_eq_false_iff] at hp; exact hp.2
+    have hp0 := hp
+    unfold precheckTypes at hp0
+    simp only [List.any_cons, Bool.or_eq_false_iff] at hp0
+    have hhead := hp0.1
+    have hnd := hh.1
+    simp only [List.map_cons, List.nodup_cons] at hnd
+    have hne : ∀ e' ∈ es, e'.1 ≠ n := fun e' he' heq => hnd.1 (List.mem_map.2 ⟨e', he', heq⟩)
+    simp only [applyReplace]
+    cases hf : types.find? (·.name == n) with
+    | none =>
+      simp only []
+      exact ih types b (honestTypes_tail hh (fun t ht _ _ _ => ht)) hp'
+    | some orig =>
+      rw [hf] at hhead
+      simp only [Bool.or_eq_false_iff] at hhead
+      simp only [hhead.1, Bool.false_eq_true, if_false, Bool.true_and]
+      have horig : orig ∈ types ∧ (orig.name == n) = true := by
+        have := List.find?_some hf
+        exact ⟨List.mem_of_find?_eq_some hf, this⟩
+      cases new? with
+      | none =>
+        simp only []
+        have hh' : HonestTypeEntries (types.filter fun t => !(t.name == n)) es :=
+          honestTypes_tail hh (fun t ht _ _ _ => (List.mem_filter.1 ht).1)
+        have hp'' : precheckTypes (types.filter fun t => !(t.name == n)) es = false := by
+          rw [precheckTypes_congr _ _ _ (fun e' he' => find_filter_ne (·.name) types n e'.1 (hne e' he'))]; exact hp'
+        obtain ⟨h1, h2⟩ := ih _ (b || !same) hh' hp''
+        refine ⟨h1, fun hb => ?_⟩
+        obtain ⟨hb', _⟩ := h2 hb
+        simp only [Bool.or_eq_false_iff, Bool.not_eq_false'] at hb'
+        have := (hh.2 (n, none, same) (List.mem_cons_self ..)).2 hb'.2 orig horig.1 horig.2
+        simp at this
+      | some new =>
+        simp only [] at hhead ⊢
+        have hk : (orig.kind != new.kind) = false := hhead.2
+        simp only [hk, Bool.false_eq_true, if_false]
+        have hnn : new.name = n := (hh.2 (n, some new, same) (List.mem_cons_self ..)).1 new rfl
+        have hh' : HonestTypeEntries (types.map fun t => if t.name == n then new else t) es := by
+          refine honestTypes_tail hh (fun t ht e' he' hn => ?_)
+          obtain ⟨u, hu, rfl⟩ := List.mem_map.1 ht
+          by_cases hun : (u.name == n) = true
+          · simp only [hun, if_true] at hn
+            have : e'.1 = n := by rw [← hnn]; exact (by simpa using hn : new.name = e'.1).symm
+            exact absurd this (hne e' he')
+          · simp only [hun, if_false]; exact hu
+        have hp'' : precheckTypes (types.map fun t => if t.name == n then new else t) es = false := by
+          rw [precheckTypes_congr _ _ _ (fun e' he' => find_map_ne (·.name) types n e'.1 new hnn (hne e' he'))]; exact hp'
+        obtain ⟨h1, h2⟩ := ih _ (b || !same) hh' hp''
+        refine ⟨h1, fun hb => ?_⟩
+        obtain ⟨hb', ht⟩ := h2 hb
+        simp only [Bool.or_eq_false_iff, Bool.not_eq_false'] at hb'
+        refine ⟨hb'.1, ?_⟩
+        rw [ht]
+        refine map_replace_id (·.name) types n new (fun t htm hn => ?_)
+        have := (hh.2 (n, some new, same) (List.mem_cons_self ..)).2 hb'.2 t htm hn
+        exact (Option.some.inj this).symm
+
+private theorem any_filter_ne (xs : List DirectiveD) (n m : String) (hne : m ≠ n) :
+    (xs.filter fun d => !(d.name == n)).any (·.name == m) = xs.any (·.name == m) := by
+  induction xs with
+  | nil => rfl
+  | cons d ds ih =>
+    by_cases hn : (d.name == n) = true
+    · have hdm : (d.name == m) = false := by
+        have : d.name = n := by simpa using hn
+        simp [this, Ne.symm hne]
+      simp [List.filter_cons, hn, hdm, ih]
+    · have hn' : (d.name == n) = false := by simpa using hn
+      simp [List.filter_cons, hn', ih]
+
+private theorem any_map_ne (xs : List DirectiveD) (n m : String) (new : DirectiveD) (hnew : new.name = n)
+    (hne : m ≠ n) :
+    (xs.map fun d => if d.name == n then new else d).any (·.name == m) = xs.any (·.name == m) := by
+  induction xs with
+  | nil => rfl
+  | cons d ds ih =>
+    by_cases hn : (d.name == n) = true
+    · have hdn : d.name = n := by simpa using hn
+      have h1 : (d.name == m) = false := by simp [hdn, Ne.symm hne]
+      have h2 : (new.name == m) = false := by simp [hnew, Ne.symm hne]
+      simp only [List.map_cons, List.any_cons, hn, if_true, h1, h2, ih]
+    · have hn' : (d.name == n) = false := by simpa using hn
+      simp only [List.map_cons, List.any_cons, hn', Bool.false_eq_true, if_false, ih]
+
+private theorem honestDirs_tail {dirs dirs' : List DirectiveD} {e : String × Option DirectiveD × Bool}
+    {es : List (String × Option DirectiveD × Bool)} (h : HonestDirEntries dirs (e :: es))
+    (hsub : ∀ d ∈ dirs', ∀ e' ∈ es, (d.name == e'.1) = true → d ∈ dirs)
+    (hany : ∀ e' ∈ es, dirs'.any (·.name == e'.1) = dirs.any (·.name == e'.1)) :
+    HonestDirEntries dirs' es := by
+  obtain ⟨hnd, hall⟩ := h
+  simp only [List.map_cons, List.nodup_cons] at hnd
+  refine ⟨hnd.2, fun e' he' => ⟨(hall e' (List.mem_cons_of_mem _ he')).1, fun hs => ?_⟩⟩
+  have := (hall e' (List.mem_cons_of_mem _ he')).2 hs
+  obtain ⟨m, new?, sm⟩ := e'
+  cases new? with
+  | none =>
+    simp only [] at this ⊢
+    intro d hd
+    cases hdn : (d.name == m) with
+    | false => rfl
+    | true => exact absurd (this d (hsub d hd _ he' hdn)) (by simp [hdn])
+  | some new =>
+    simp only [] at this ⊢
+    refine ⟨by rw [hany _ he']; exact this.1, fun d hd hn => this.2 d (hsub d hd _ he' hn) hn⟩
+
+private theorem precheckDirs_congr (dirs dirs' : List DirectiveD) (es : List (String × Option DirectiveD × Bool))
+    (h : ∀ e ∈ es, dirs'.any (·.name == e.1) = dirs.any (·.name == e.1)) :
+    precheckDirectives dirs' es = precheckDirectives dirs es := by
+  unfold precheckDirectives
+  induction es with
+  | nil => rfl
+  | cons e es ih =>
+    simp only [List.any_cons]
+    rw [h e (List.mem_cons_self ..), ih (fun e' he' => h e' (List.mem_cons_of_mem _ he'))]
+
+private theorem applyDirReplace_spec : ∀ (es : List (String × Option DirectiveD × Bool)) (dirs : List DirectiveD) (b : Bool),
+    HonestDirEntries dirs es → precheckDirectives dirs es = false →
+    (applyDirReplace true dirs b es).2.2 = false ∧
+      ((applyDirReplace true dirs b es).2.1 = false → b = false ∧ (applyDirReplace true dirs b es).1 = dirs) := by
+  intro es
+  induction es with
+  | nil => intro dirs b _ _; simp [applyDirReplace]
+  | cons e es ih =>
+    intro dirs b hh hp
+    obtain ⟨n, new?, same⟩ := e
+    have hp0 := hp
+    unfold precheckDirectives at hp0
+    simp only [List.any_cons, Bool.or_eq_false_iff] at hp0
+    have hp' : precheckDirectives dirs es = false := by unfold precheckDirectives; exact hp0.2
+    have hhead := hp0.1
+    have hnd := hh.1
+    simp only [List.map_cons, List.nodup_cons] at hnd
+    have hne : ∀ e' ∈ es, e'.1 ≠ n := fun e' he' heq => hnd.1 (List.mem_map.2 ⟨e', he', heq⟩)
+    simp only [applyDirReplace, hhead, Bool.false_eq_true, if_false, Bool.true_and]
+    cases new? with
+    | none =>
+      simp only []
+      have hany : ∀ e' ∈ es, (dirs.filter fun d => !(d.name == n)).any (·.name == e'.1) = dirs.any (·.name == e'.1) :=
+        fun e' he' => any_filter_ne dirs n e'.1 (hne e' he')
+      have hh' := honestDirs_tail hh (dirs' := dirs.filter fun d => !(d.name == n))
+        (fun d hd _ _ _ => (List.mem_filter.1 hd).1) hany
+      obtain ⟨h1, h2⟩ := ih _ (b || !same) hh' (by rw [precheckDirs_congr _ _ _ hany]; exact hp')
+      refine ⟨h1, fun hb => ?_⟩
+      obtain ⟨hb', hd⟩ := h2 hb
+      simp only [Bool.or_eq_false_iff, Bool.not_eq_false'] at hb'
+      refine ⟨hb'.1, ?_⟩
+      rw [hd]
+      have := (hh.2 (n, none, same) (List.mem_cons_self ..)).2 hb'.2
+      simp only [] at this
+      exact List.filter_eq_self.2 (fun d hd => by simp [this d hd])
+    | some new =>
+      simp only []
+      have hnn : new.name = n := (hh.2 (n, some new, same) (List.mem_cons_self ..)).1 new rfl
+      have hnm : ∀ e' ∈ es, (new.name == e'.1) = false := fun e' he' => by
+        simp [hnn, Ne.symm (hne e' he')]
+      have hany : ∀ e' ∈ es,
+          (if dirs.any (·.name == n) then dirs.map (fun d => if d.name == n then new else d) else dirs ++ [new]).any
+            (·.name == e'.1) = dirs.any (·.name == e'.1) := by
+        intro e' he'
+        split
+        · exact any_map_ne dirs n e'.1 new hnn (hne e' he')
+        · simp [List.any_append, hnm e' he']
+      have hsub : ∀ d ∈ (if dirs.any (·.name == n) then dirs.map (fun d => if d.name == n then new else d) else dirs ++ [new]),
+          ∀ e' ∈ es, (d.name == e'.1) = true → d ∈ dirs := by
+        intro d hd e' he' hn
+        split at hd
+        · obtain ⟨u, hu, rfl⟩ := List.mem_map.1 hd
+          by_cases hun : (u.name == n) = true
+          · simp only [hun, if_true] at hn; rw [hnm e' he'] at hn; exact absurd hn (by simp)
+          · simp only [hun, if_false]; exact hu
+        · rcases List.mem_append.1 hd with hd | hd
+          · exact hd
+          · have : d = new := by simpa using hd
+            subst this; rw [hnm e' he'] at hn; exact absurd hn (by simp)
+      have hh' := honestDirs_tail hh hsub hany
+      obtain ⟨h1, h2⟩ := ih _ (b || !same) hh' (by rw [precheckDirs_congr _ _ _ hany]; exact hp')
+      refine ⟨h1, fun hb => ?_⟩
+      obtain ⟨hb', hd⟩ := h2 hb
+      simp only [Bool.or_eq_false_iff, Bool.not_eq_false'] at hb'
+      refine ⟨hb'.1, ?_⟩
+      rw [hd]
+      have := (hh.2 (n, some new, same) (List.mem_cons_self ..)).2 hb'.2
+      simp only [] at this
+      rw [if_pos this.1]
+      exact map_replace_id (·.name) dirs n new this.2
+
+private theorem relook_id (s : SchemaD) (r : Option String) (h : RootOK s r) : relookRoot s.types r = r := by
+  cases r with
+  | none => rfl
+  | some n =>
+    have hk := h n rfl
+    unfold kindOf SchemaD.findType at hk
+    cases hf : s.types.find? (·.name == n) with
+    | none => rw [hf] at hk; simp at hk
+    | some t =>
+      have hm := List.mem_of_find?_eq_some hf
+      have hn := List.find?_some hf
+      have : s.types.any (·.name == n) = true := List.any_eq_true.2 ⟨t, hm, hn⟩
+      simp only [relookRoot, Option.bind, this, if_true]
+
+private theorem replaced_id (s : SchemaD) (h : ValidSchema s true) : replaced s s.types s.directives = s := by
+  obtain ⟨⟨_, hq, hm, hs⟩, _, _⟩ := h
+  unfold replaced
+  rw [relook_id s _ hq, relook_id s _ hm, relook_id s _ hs]
+
+/-- one `_replace_types_and_directives` call (any number of type and directive entries, deletions
+    included, refused or not) keeps the invariant -/
+private theorem replace_inv (st : CacheState) (es : List (String × Option TypeD × Bool))
+    (ds : List (String × Option DirectiveD × Bool)) (hl : Option SchemaD)
+    (hh : HonestTypeEntries st.schema.types es ∧ HonestDirEntries st.schema.directives ds)
+    (h : CacheInv st) : CacheInv (replaceStep true true true st es ds hl).1 := by
+  unfold replaceStep
+  simp only [Bool.true_and]
+  cases hpt : precheckTypes st.schema.types es with
+  | true => simpa using h
+  | false =>
+    cases hpd : precheckDirectives st.schema.directives ds with
+    | true => simpa using h
+    | false =>
+      simp only [Bool.or_self, Bool.false_eq_true, if_false]
+      obtain ⟨t1, t2⟩ := applyReplace_spec es st.schema.types false hh.1 hpt
+      generalize applyReplace true st.schema.types false es = r at t1 t2
+      obtain ⟨types, busted, raised⟩ := r
+      simp only at t1 t2
+      subst t1
+      simp only []
+      have hhd : HonestDirEntries st.schema.directives ds := hh.2
+      obtain ⟨d1, d2⟩ := applyDirReplace_spec ds st.schema.directives busted hhd hpd
+      generalize applyDirReplace true st.schema.directives busted ds = r2 at d1 d2
+      obtain ⟨dirs, busted2, raised2⟩ := r2
+      simp only at d1 d2
+      subst d1
+      simp only []
+      cases busted2 with
+      | true => intro hv; simp at hv
+      | false =>
+        obtain ⟨hb, hdirs⟩ := d2 rfl
+        obtain ⟨_, htypes⟩ := t2 hb
+        subst hdirs htypes
+        simp only [Bool.false_eq_true, if_false]
+        intro hv
+        have hvs := h hv
+        show ValidSchema (replaced st.schema st.schema.types st.schema.directives) true
+        rw [replaced_id _ hvs]; exact hvs
+
+/-- every operation of the machine keeps the invariant (the replace requests being honest about identity) -/
+theorem step_inv (st : CacheState) (op : Op) (hh : HonestOp st op) (h : CacheInv st) : CacheInv (step st op).1 := by
   cases op with
-  | replaceTypes es =>
-    match es, h1 with
-    | [(n, new, same)], _ =>
-      have hs := applyReplace_single st.schema.types n new same
-      simp only [step]
-      generalize applyReplace st.schema.types false [(n, new, same)] = r at hs ⊢
-      obtain ⟨types', busted, err⟩ := r
-      simp only at hs
-      rcases hs with ⟨rfl, herr | hb⟩ | ⟨herr, hb, ht⟩
-      · subst herr; exact h
-      · subst hb
-        cases err
-        · intro hv; exact h (by simpa using hv)
-        · exact h
-      · subst herr hb ht
-        cases same with
-        | false => intro hv; simp at hv
-        | true =>
-          have hid := map_replace_id st.schema.types n new
-            (fun t ht hn => hh (n, new, true) (List.mem_singleton.2 rfl) rfl t ht hn)
-          simp only [hid]
-          intro hv; exact h (by simpa using hv)
+  | replaceTypes es ds hl =>
+    simp only [step, replace_accumulates, replace_atomic, replace_directives_bust]
+    exact replace_inv st es ds hl hh h
   | validate => exact step_inv_resolver st _ rfl h
   | registerDefaultResolver tn r a => exact step_inv_resolver st _ rfl h
   | registerResolver tn fn r a sm => exact step_inv_resolver st _ rfl h
   | registerSubscription tn fn r a sm => exact step_inv_resolver st _ rfl h
 
-/-- the full-strength statement including arbitrary replacement maps (kept visible; NOT a theorem today) -/
-def CacheSoundWithReplace : Prop :=
-  ∀ (st : CacheState) (op : Op), HonestReplace st op → CacheInv st → CacheInv (step st op).1
+/-- every replace request met along the history is honest about object identity -/
+def HonestRun : CacheState → List Op → Prop
+  | _, [] => True
+  | st, op :: ops => HonestOp st op ∧ HonestRun (step st op).1 ops
+
+/-- **Cache soundness, all operations** (FULL: `validate`, the three `register_*`, and
+    `_replace_types_and_directives` with any number of type / directive entries, replacements and
+    deletions, successful or refused): in every reachable state a cached verdict implies that the
+    CURRENT schema is valid. Rests on `replace_accumulates`, `replace_atomic`,
+    `replace_directives_bust` — the shape of the function as extracted from the source on this run. -/
+theorem cache_sound_all (st : CacheState) (h : CacheInv st) (ops : List Op) (hh : HonestRun st ops) :
+    CacheInv (run st ops) := by
+  induction ops generalizing st with
+  | nil => exact h
+  | cons op ops ih => exact ih _ (step_inv st op hh.1 h) hh.2
+
+/-! #### the legacy variants of `_replace_types_and_directives` (code that no longer exists) -/
 
 private def wQuery : TypeD := { kind := .object, name := "Query", fields := [{ name := "a", type := .named "Int" }] }
 private def wA : TypeD := { kind := .object, name := "A", fields := [{ name := "a", type := .named "Int" }] }
+private def wI : TypeD := { kind := .interface, name := "A", fields := [{ name := "a", type := .named "Int" }] }
 private def wInt : TypeD := { kind := .scalar, name := "Int", builtin := true }
 private def wSchema : SchemaD := { types := [wInt, wQuery, wA] }
+private def wState : CacheState := { schema := wSchema, isValid := true }
 
-/-- Ledger T3, machine-checked on the model of the code as it is: replacing `{A: <A without fields>,
-    Query: <the same object>}` leaves `_is_valid = True` (the last entry overwrites `busted_cache`)
-    although the schema is now invalid. Outside the literal statement of C13 (which speaks of
-    resolver reassignment); recorded as a limit. -/
-theorem cache_replace_full_fails_today : ¬ CacheSoundWithReplace := by
+private theorem wState_inv : CacheInv wState := fun _ => (validate_iff _ _).1 (by decide)
+
+/-- LEGACY (before the T3 fix, `busted_cache` overwritten by every entry): `{A: <A without fields>,
+    Query: <same object>}` kept `_is_valid = True` on an invalid schema. -/
+theorem legacy_overwrite_unsound :
+    ¬ CacheInv (replaceStep false false false wState
+        [("A", some { wA with fields := [] }, false), ("Query", some wQuery, true)] [] none).1 := by
   intro h
-  have hv := h { schema := wSchema, isValid := true }
-    (.replaceTypes [("A", { wA with fields := [] }, false), ("Query", wQuery, true)])
-    (by
-      intro e he hs t ht hn
-      simp at he
-      rcases he with rfl | rfl
-      · simp at hs
-      · simp [wSchema] at ht
-        rcases ht with rfl | rfl | rfl <;> first | rfl | (simp [wInt, wA] at hn))
-    (by intro _; exact (validate_iff _ _).1 (by decide))
-  have : ¬ ValidSchema (step { schema := wSchema, isValid := true }
-      (.replaceTypes [("A", { wA with fields := [] }, false), ("Query", wQuery, true)])).1.schema true := by
-    rw [← validate_iff]; decide
-  exact this (hv (by decide))
+  have := h (by decide)
+  rw [← validate_iff] at this
+  exact absurd this (by decide)
+
+/-- LEGACY (before fix C13-T3b, refusals raised half way): `{A: <A without fields>, Query: <an interface>}`
+    raised `SchemaError` after `A` had been replaced, keeping `_is_valid = True`. -/
+theorem legacy_nonatomic_unsound :
+    ¬ CacheInv (replaceStep true false false wState
+        [("A", some { wA with fields := [] }, false), ("Query", some { wQuery with kind := .interface }, false)] [] none).1 := by
+  intro h
+  have := h (by decide)
+  rw [← validate_iff] at this
+  exact absurd this (by decide)
+
+/-- LEGACY (before fix C13-T3b): a replaced directive never reset the verdict. -/
+theorem legacy_directive_unsound :
+    ¬ CacheInv (replaceStep true true false { wState with schema := { wSchema with directives := [{ name := "d", locations := ["FIELD"] }] } }
+        [] [("d", some { name := "d", locations := ["FIELD"], args := [{ name := "__x", type := .named "Int" }] }, false)] none).1 := by
+  intro h
+  have := h (by decide)
+  rw [← validate_iff] at this
+  exact absurd this (by decide)
 
 /-! ### independence of the order of types -/
 
